@@ -75,6 +75,13 @@ MIXED_PROGS = ["[...s]", "list(s)", "string(s)", "sorted(list(s))", "[x for x in
                "string(<<<x => 1 for x in s>>>)", "def f(a...) a...; f(...s)", "first(list(s))", "string(s + 'zz')"]
 
 
+# maps whose keys are not strings (such entries are passed positionally when spread into a call)
+IKEYS = [[2, 1, 3], [7, "b", 1.5], [True, 0, "0"], [10, 9, 100]]
+IMAP_PROGS = ["def f(a, b, c) [a, b, c]; f(...m)", "def f(a...) a...; f(...m)", "[...m]", "string(m)", "[x for x in keys m]",
+              "list(m)", "for k in keys m do return k end", "apply(fn(a, b, c) [a, b, c], m)", "[x for x in values m]",
+              "def f(a = 0, b = 0, c = 0) [a, b, c]; f(...m)", "def [a, b] = m; [a, b]", "string(set(m))"]
+
+
 def bounds(tier):
     return {"set_size": 3 if tier == "quick" else 4, "programs": len(SET_PROGS) + len(MAP_PROGS),
             "replay_hash_seeds": 32}
@@ -90,6 +97,9 @@ def cells(tier, seed):
     for mi in range(len(MIXED)):
         for pi in range(len(MIXED_PROGS)):
             out.append({"k": "sets", "mixed": mi, "prog": pi, "i": -1, "n": 0})
+    for ki in range(len(IKEYS)):
+        for pi in range(len(IMAP_PROGS)):
+            out.append({"k": "imaps", "keys": ki, "prog": pi})
     out.append({"k": "prng"})
     return out
 
@@ -223,6 +233,20 @@ def run(ctx, cell):
                     "n": vmap([(vstr(("x", "a")[i]), vint(i)) for i in order2])}
         ref = observe(text, build(list(range(n)), [0, 1]))
         got = observe(text, build(perm, perm2))
+        ctx.check(ref == got, key + ":depends-on-map-construction-order",
+                  lambda: {"program": text, "canonical": ref, "permuted": got, "order": perm})
+        return ["done"]
+    if k == "imaps":
+        ctx.reach("maps")
+        text = IMAP_PROGS[cell["prog"]]
+        keys = IKEYS[cell["keys"]]
+        key = "C12:imaps%d[%s]" % (cell["keys"], text)
+        perm = ctx.perm("p", len(keys))
+
+        def build(order):
+            return {"m": vmap([(mkscalar(keys[i]), vstr("v%d" % i)) for i in order])}
+        ref = observe(text, build(list(range(len(keys)))))
+        got = observe(text, build(perm))
         ctx.check(ref == got, key + ":depends-on-map-construction-order",
                   lambda: {"program": text, "canonical": ref, "permuted": got, "order": perm})
         return ["done"]
